@@ -271,10 +271,23 @@ def _generic_eq(it, a, b):
         return ops.zand(*[compare(it, ast.Eq(), x, y) for x, y in zip(a, b)])
     if isinstance(a, (Obj, Mat)) or isinstance(b, (Obj, Mat)):
         return a is b
+    da, db = _dtype_canon(a), _dtype_canon(b)
+    if da is not None and db is not None:
+        return da == db
     if isinstance(a, Opaque) or isinstance(b, Opaque):
         if a is b:
             return True
         raise Unsupported("equality on opaque values")
+    return None
+
+
+def _dtype_canon(v):
+    """canonical dtype name of a dtype-like value (np.float64, bool, int, float, array.dtype)"""
+    if isinstance(v, Opaque) and v.tag.startswith("dtype:"):
+        return v.tag[6:]
+    for nm, canon in (("bool", "bool"), ("int", "int64"), ("float", "float64")):
+        if v is BUILTINS.get(nm):
+            return canon
     return None
 
 
@@ -382,6 +395,9 @@ def arr_slice(it, a: Arr, s: slice):
     if isinstance(hi, int) and hi < 0:
         hi = ops.scalar_bin("+", a.n, hi)
     n = ops.scalar_bin("-", hi, lo)
+    if is_sym(n):
+        ns = z3.simplify(n)
+        n = ns.as_long() if z3.is_int_value(ns) else ns
     if isinstance(n, int) and n < 0:
         n = 0
     if isinstance(n, int) and isinstance(a.n, int) and n > a.n:
@@ -1066,6 +1082,9 @@ def arr_attr(it, a: Arr, name):
 
 
 def _dtype_name(dt):
+    c = _dtype_canon(dt)
+    if c is not None:
+        return c
     if isinstance(dt, Opaque) and dt.tag.startswith("dtype:"):
         return dt.tag[6:]
     if isinstance(dt, PyType):
@@ -1411,6 +1430,9 @@ def install(it):
     L["logging.DEBUG"] = 10
     L["logging.INFO"] = 20
     L["logging.WARNING"] = 30
+    from . import matmodel
+
+    matmodel.install(it)
     L["numpy.inf"] = PINF
     L["numpy.newaxis"] = None
     L["numpy.float64"] = Opaque("dtype:float64")
@@ -1504,30 +1526,41 @@ def pow2(it):
 
 
 def pow2_at(it, e):
-    """pow2(e) with ground-instantiated laws on the exponent terms present (DESIGN §2.5)."""
+    """pow2(e) with ground-instantiated laws on the exponent terms present (DESIGN §2.5):
+    positivity, inverse (pow2(e)*pow2(-e) = 1), pow2(0) = 1, pow2(1) = 2, and the additive law on the summands of
+    the exponent term itself (pow2(a+b) = pow2(a)*pow2(b)).  No quantified axiom is ever given to the solver."""
     f = pow2(it)
     if isinstance(e, int):
         e = z3.IntVal(e)
     e = z3.simplify(e)
-    terms = it.path.ghost["__pow2_terms__"]
+    seen = it.path.ghost.setdefault("__pow2_seen__", {})
     t = f(e)
-    if not any(x.get_id() == e.get_id() for x in terms):
-        p = it.path
-        p.pc.append(t > 0)
-        p.pc.append(t * f(-e) == 1)
-        p.pc.append(f(-e) > 0)
-        p.pc.append(z3.Implies(e == 0, t == 1))
-        p.pc.append(z3.Implies(e == 1, t == 2))
-        p.pc.append(z3.Implies(e >= 0, t >= 1))
-        p.pc.append(z3.Implies(e <= 0, t <= 1))
-        for x in terms:
-            # additive law on pairs of known exponents, only when their sum/difference is also syntactically present later:
-            p.pc.append(f(z3.simplify(e + x)) == t * f(x))
-            p.pc.append(f(z3.simplify(e - x)) * f(x) == t)
-            p.pc.append(z3.Implies(e == x, t == f(x)))
-            p.pc.append(z3.Implies(e < x, t < f(x)))
-            p.pc.append(z3.Implies(e > x, t > f(x)))
-        terms.append(e)
+    if e.get_id() in seen:
+        return t
+    seen[e.get_id()] = e
+    p = it.path
+    if z3.is_int_value(e):
+        v = e.as_long()
+        if -64 <= v <= 64:
+            from fractions import Fraction
+
+            fr = Fraction(2) ** v
+            p.pc.append(t == z3.RealVal(f"{fr.numerator}/{fr.denominator}"))
+            return t
+    p.pc.append(t > 0)
+    ne = z3.simplify(-e)
+    tn = f(ne)
+    p.pc.append(t * tn == 1)
+    if ne.get_id() not in seen:
+        seen[ne.get_id()] = ne
+        p.pc.append(tn > 0)
+    if z3.is_add(e):
+        parts = e.children()
+        prod = None
+        for c in parts:
+            pc_ = pow2_at(it, c)
+            prod = pc_ if prod is None else prod * pc_
+        p.pc.append(t == prod)
     return t
 
 
